@@ -47,13 +47,25 @@ def addr_len(e):
     return strip_cast(e.args[0]), e.args[2], e.args[1]
 
 
+KNOWN_FUNCTIONS = {'checksum_size', 'persistent_buffer', 'persistent_calculate_checksum', 'persistent_checksum', 'persistent_fetch',
+                   'persistent_fetch_checksum', 'persistent_fetch_part', 'persistent_init', 'persistent_match', 'persistent_place',
+                   'persistent_reset', 'persistent_store', 'persistent_store_checksum', 'persistent_store_part', 'persistent_sum16',
+                   'persistent_sum32', 'persistent_validate', 'persistent_writen', 'set_data_address', 'trivialsum'}
+
+
 class Ctx:
     def __init__(self, ck):
         self.ck = ck
         self.u = cast.load(UNIT)
         ck.unit(UNIT)
         so = sym.unit_sizeofs(UNIT, self.u)
-        self.eng = sym.Engine(self.u, sizeof=so, inline={'checksum_size', 'set_data_address'})
+        # functions of the unit known to the rules (confirmed on the pinned tree); any other function defined in the unit
+        # is a helper a later change introduced: it is inlined, so that the rules keep seeing the medium accesses and
+        # checksum steps at the place where they happen
+        fns = sorted(n for n, f in self.u.functions.items()
+                     if (cast.node_file(f) or '').endswith('persistent-storage.c') and self.u.body(n) is not None)
+        self.new_helpers = set(fns) - KNOWN_FUNCTIONS
+        self.eng = sym.Engine(self.u, sizeof=so, inline={'checksum_size', 'set_data_address'} | self.new_helpers)
         self.P = {}
         self.enums = self.u.enums
 
@@ -205,6 +217,14 @@ def walker_rule(cx, fn, rule, base_addr, base_count, kind):
             continue
         z = L(lmap[rk[0]][0])
         okz = eng.entails(p, z) and eng.entails(p, -z)
+        if not okz:
+            # a final access behind the loop that covers exactly what the loop left: (walking address, remaining count)
+            ak = [k for k, (h, pre) in lmap.items() if pre is not None and strip_cast(pre) == base_addr]
+            post = [e for e in medium_calls(p) if not e.inloop]
+            if len(ak) == 1 and len(post) == 1:
+                a_, ln_, mem_ = addr_len(post[0])
+                if strip_cast(a_) == lmap[ak[0]][0] and strip_cast(ln_) == lmap[rk[0]][0]:
+                    okz = True
         ck.verdict(okz, rule, fn + ':walk:complete', where,
                    'SUCCESS is reported only when the whole region has been walked (remaining == 0)' if okz else
                    'the walk ends with SUCCESS under {%s} while octets may remain: the tail of [%s, +%s) is never %s'
@@ -331,7 +351,7 @@ def rule_width(cx, rule='C10.d', fns=('checksum_size', 'persistent_checksum', 'p
                     bad = ('the %d-bit arm performs %d medium accesses with its checksum member (expected exactly one): the stored checksum is not %s'
                            % (w, len([e for e in mc if any('sum%d' % w in fmt(a) for a in e.args)]), 'written' if 'store' in fn else 'read'))
         sites += 1
-        if bad is None and not used and fn != 'checksum_size':
+        if bad is None and not used and fn != 'checksum_size' and not cx.new_helpers:
             bad = 'no arm uses a checksum member of its own width'
         ck.verdict(bad is None, rule, fn + (':width' if rule != 'C10.d' else ''), cx.where(fn),
                    'each checksum-type arm uses only the members of its own width' if bad is None else bad)
@@ -398,6 +418,10 @@ def rule_width(cx, rule='C10.d', fns=('checksum_size', 'persistent_checksum', 'p
 def rule_fold(cx):
     """C10.c fold shape: seed, update, same member one-shot vs chunked"""
     ck = cx.ck
+    if cx.new_helpers:
+        # the accumulator is updated through a helper's pointer parameter: a shape this rule does not read reliably
+        return ck.broken('C10.c', 'persistent_calculate_checksum:fold', cx.where('persistent_calculate_checksum'),
+                         'checksum steps go through helper(s) %s introduced after the rule was written' % sorted(cx.new_helpers))
     ps = cx.paths('persistent_calculate_checksum', 'C10.c')
     if ps is None:
         return
@@ -582,8 +606,20 @@ def rule_io(cx):
     IOERR = cx.enums.get('PERSISTENT_ACCESS_IO_ERROR')
     SUCCESS = cx.enums.get('PERSISTENT_ACCESS_SUCCESS')
     sites = {}
-    for fn in ('persistent_calculate_checksum', 'persistent_store_checksum', 'persistent_fetch_checksum',
-               'persistent_fetch_part', 'persistent_store_part', 'persistent_writen'):
+    listed = ('persistent_calculate_checksum', 'persistent_store_checksum', 'persistent_fetch_checksum',
+              'persistent_fetch_part', 'persistent_store_part', 'persistent_writen')
+    # every function of the unit that talks to the medium (helpers a refactoring may have introduced included)
+    direct = []
+    for fn in sorted(cx.u.functions):
+        f = cx.u.fn(fn)
+        if not (cast.node_file(f) or '').endswith('persistent-storage.c') or cx.u.body(fn) is None:
+            continue
+        if any(cast.kind(x) == 'CallExpr' and [m for m in cast.walk(x['inner'][0]) if cast.kind(m) == 'MemberExpr' and m.get('name') in ('read', 'write')]
+               for x in cast.walk(cx.u.body(fn))):
+            direct.append(fn)
+    for fn in sorted(set(listed) | set(direct)):
+        if fn not in listed and cx.u.fn(fn) is None:
+            continue
         ps = cx.paths(fn, 'C11.a')
         if ps is None:
             continue
@@ -603,6 +639,8 @@ def rule_io(cx):
                     # must end in IO_ERROR
                     r = p.ret
                     okr = r == C(IOERR) or (r is not None and r[0] == 'struct' and dict(r[2]).get('access') == C(IOERR))
+                    if fn not in listed and r is not None and sym.is_c(strip_cast(r)) and strip_cast(r)[1] <= 0:
+                        okr = True          # a helper reporting failure in its own way (false / negative); its callers are held to use it (C11.c)
                     if p.end != 'return' or not okr:
                         st['bad'] = 'short/failed %s ends with %s, expected I/O error' % (e.name, fmt(r) if r else p.end)
                 else:
@@ -621,6 +659,43 @@ def rule_io(cx):
         ck.verdict(bad is None, 'C11.a', sid, st['where'],
                    'transferred count compared with the requested length; mismatch reported as I/O error' if bad is None else bad)
     ck.floor('C11.a', 'medium call sites', len(sites), 8)
+    # C11.c (interprocedural half): the result of every unit function that touches the medium - directly or through
+    # callees - is tested or returned by its caller; a discarded result is a swallowed I/O status
+    MED = set(direct)
+    calls_of = {}
+    for fn in sorted(cx.u.functions):
+        f = cx.u.fn(fn)
+        if not (cast.node_file(f) or '').endswith('persistent-storage.c') or cx.u.body(fn) is None:
+            continue
+        calls_of[fn] = {cast.callee_name(x) for x in cast.calls_in(cx.u.body(fn))}
+    changed = True
+    while changed:
+        changed = False
+        for fn, cs in calls_of.items():
+            if fn not in MED and cs & MED:
+                MED.add(fn)
+                changed = True
+    nuse = 0
+    for fn in sorted(calls_of):
+        if not (calls_of[fn] & MED):
+            continue
+        ps = cx.paths(fn, 'C11.c')
+        if ps is None:
+            continue
+        bad = None
+        for p in ps:
+            for e in p.calls():
+                if e.name not in MED or e.result is None:
+                    continue
+                nuse += 1
+                used = any(sym.contains(c, e.result) for c in p.cond_terms()) or (p.ret is not None and sym.contains(p.ret, e.result))
+                later_args = any(sym.contains(a, e.result) for e2 in p.effects if e2 is not e for a in (e2.args or ()))
+                if not used and not later_args and p.end == 'return':
+                    bad = bad or ('the result of %s at %s is neither tested nor returned on the path {%s}: a failed or short medium access inside it goes unnoticed'
+                                  % (e.name, e.where(), '; '.join(fmt(c) for c in p.cond_terms()[-2:])[:160]))
+        ck.verdict(bad is None, 'C11.c', fn + ':status-used', cx.where(fn),
+                   'every result of a medium-touching callee is tested or returned' if bad is None else bad)
+    ck.floor('C11.c', 'uses of medium-touching callees', nuse, 6)
     # C11.c: results of internal steps are propagated (no SUCCESS after a failed step)
     for fn, steps in (('persistent_store_part', ('persistent_calculate_checksum', 'persistent_store_checksum')),
                       ('persistent_validate', ('persistent_fetch_checksum', 'persistent_calculate_checksum')),
